@@ -146,7 +146,7 @@ def run_s2c(prop, tier, seed, opts):
             extra = list(st.get("extra", {}).get(tier, []))
             if st.get("simulate"):
                 extra += ["-simulate", "num=%d" % st["simulate"][tier], "-depth", str(st.get("depth", 1)), "-seed", str(seed)]
-            res = V.run_tlc(scratch, st["module"], st["cfg"][tier], workers=st.get("workers", 8),
+            res = V.run_tlc(scratch, st["module"], st["cfg"][tier], workers=st.get("workers", 16),
                             timeout=st.get("timeout", {}).get(tier, 1500), files=files, sub="tlc-" + st["name"], extra=extra)
             V.tlc_ok(res, st["module"] + "/" + st["cfg"][tier])
             if st.get("modelonly"):
